@@ -241,6 +241,8 @@ def gen_scenarios(rng, quick):
     # the application now and then hands over an ASDU that is too large for an APDU (refused by the queue; nothing may stay locked)
     for mode in (0, 1, 2):
         add("srv", seed=rng.below(1 << 30), mode=mode, conns=rng.range(1, 2), apps=rng.range(1, 3), rounds=25 if quick else 80, reent=0, raw=0, stop=0, big=1)
+    for apps in (1, 2):
+        add("cli", seed=rng.below(1 << 30), apps=apps, rounds=25 if quick else 80, reent=0, raw=0, close=2)     # destroy an open, busy connection
     # several application threads send on one client connection with a small window while the peer acknowledges at once: every
     # acknowledgement lets them race for the free place; never more than k I-frames in flight
     for k_ in (1, 1, 2):
